@@ -462,6 +462,9 @@ def rule_let_chain_rev(text, ctx, where):
         found = None
         for mt in re.finditer(r"\bif\s+let\s", m):
             b = find_top_level_brace(m, mt.end())
+            # a brace that closes in front of `=` belongs to a struct pattern (`let P { a, .. } = e`), not to the block
+            while b >= 0 and re.match(r"\s*=(?![=>])", m[match_delim(m, b) + 1:]):
+                b = find_top_level_brace(m, match_delim(m, b) + 1)
             if b < 0:
                 continue
             cond = m[mt.start() + 2:b]
